@@ -17,6 +17,6 @@ PROP = dict(
     assumptions=["single node", "rows <= 1000 so that positions fit the official 32-bit roaring format", "timestamps at whole minutes 2017-2023; time ranges aligned to the finest unit with explicit bounds"],
     tags=["gt"],
     units=[
-        U("paths", "./server", "^TestVerifC28_Paths$", 240, 1500, sq=4, sth=10),
+        U("paths", "./server", "^TestVerifC28_Paths$", 200, 1500, sq=4, sth=10),
     ],
 )
